@@ -100,6 +100,10 @@ def make_harness(P):
             if op == "expectation":
                 r = a.expectation(o)
                 ctx.check("expectation = <psi|O|psi> (tensor part)", ctx.eq(r, lib.vdot(va, O.dot(va))))
+                if kind == "real":
+                    a.scale(ctx.real("kscale", 0.5), inplace=True)
+                    v2 = lib.dense_vec(lib.tensors(a))
+                    ctx.check("after an in-place scale of the same object the expectation is that of the NEW tensors", ctx.eq(a.expectation(o), lib.vdot(v2, O.dot(v2))))
             elif op == "transition":
                 b = plain_mps(ctx, "b", model, P["bonds"], kind)
                 vb = lib.dense_vec(lib.tensors(b))
@@ -157,12 +161,25 @@ def make_harness(P):
             ctx.check("one-site reduced density matrices = partial traces of the dense outer product (index order: bra index first)", ctx.all(conds))
             only = a.calc_1site_rdm(idx=1)
             ctx.check("idx argument selects the requested site", list(only.keys()) == [1] and ctx.eq(only[1], _partial_trace(psi, [1])))
+            if kind == "real":
+                # history on the same object: query, modify in place, query again - nothing remembered from the first query may survive
+                a.scale(ctx.real("kscale", 0.5), inplace=True)
+                psi2 = lib.dense_vec(lib.tensors(a)).reshape(dims)
+                rd2 = a.calc_1site_rdm()
+                ctx.check("after an in-place scale of the same object the one-site reduced density matrices are those of the NEW state",
+                          ctx.all([ctx.eq(rd2[i], _partial_trace(psi2, [i])) for i in range(n)]))
         elif op == "rdm2":
             rd = a.calc_2site_rdm()
             psi = va.reshape(dims)
             conds = [ctx.eq(rd[(i, j)], _partial_trace(psi, [i, j])) for i in range(n) for j in range(i + 1, n)]
             ctx.check("two-site reduced density matrices = partial traces (all pairs incl. non-adjacent)", ctx.all(conds))
             ctx.check("all pairs present", sorted(rd.keys()) == [(i, j) for i in range(n) for j in range(i + 1, n)])
+            if kind == "real":
+                a.scale(ctx.real("kscale", 0.5), inplace=True)
+                psi2 = lib.dense_vec(lib.tensors(a)).reshape(dims)
+                rd2 = a.calc_2site_rdm()
+                ctx.check("after an in-place scale of the same object the two-site reduced density matrices are those of the NEW state",
+                          ctx.all([ctx.eq(rd2[(i, j)], _partial_trace(psi2, [i, j])) for i in range(n) for j in range(i + 1, n)]))
         elif op == "occupations":
             occ = a.e_occupations
             refs = []
